@@ -339,6 +339,9 @@ class Check:
             if lost:
                 print(f"UNDECIDED property={pid} {len(lost)} obligation(s) proved on the baseline lock are not proved now, e.g. {lost[:3]}")
                 return 2
+        if self.undecided:
+            # an obligation generated from the current source that is neither proved nor refuted-with-a-failing-input: not shown to hold
+            return 2
         if bounded_args is not None and not bounded_ok and n_proved < len(claims):
             return 2
         if bounded_args is not None and not bounded_ok:
